@@ -106,6 +106,18 @@ Proof. exact average_spec. Qed.
 Theorem C26_sample_stat_single : forall x : Qc, sample_stat Qc qc_ops [x] = Ret (x, 0%Qc).
 Proof. exact sample_stat_one. Qed.
 
+(* Known finding C26-F1 (open): a save with overwrite=False that RAISES has already written other
+   targets.  Witness: a 4-sample list distributed over 2 tasks saved over an existing 2-sample list:
+   task 0 collides at index 0, task 1 writes indices 2 and 3; every task raises RuntimeError, and a
+   later load returns the old samples 0, 1 followed by the new samples 2, 3. *)
+Theorem C26_failed_save_mixture_refuted :
+  let d : dir val := [(str "sl.0.pickle", Plain [1]); (str "sl.1.pickle", Plain [2])] in
+  let r := save_plain val d (str "sl") [[[10]; [11]]; [[12]; [13]]] false in
+  snd r = Raise RuntimeError /\
+  load_plain val d (str "sl") 1 0 = Ret [[1]; [2]] /\
+  load_plain val (fst r) (str "sl") 1 0 = Ret [[1]; [2]; [12]; [13]].
+Proof. vm_compute. repeat split. Qed.
+
 (* ---- non-vacuity ---- *)
 (* a directory with stale sample files 4, 5 of an earlier longer list, a stale mean and a file of
    another base is well formed; saving 3 samples from 3 tasks (one empty) over it with
